@@ -169,6 +169,48 @@ def run_shards(binpath, check, tier, nshards, extra_args, wdir, seed, wall_cap):
                 except Exception:
                     pass
             start(k, resume_after=resume, gen=gen + 1)
+    # A hang is only a verdict if it reproduces. A worker can stall for a long time without the
+    # code under test being at fault (memory reclaim while sixteen workers touch gigabytes, a paused
+    # VM, a saturated host): the cases that tripped the watchdog are re-run alone, one at a time,
+    # with twice the limit. A case that finishes then was not hung; its result is merged like any
+    # other. Up to three are re-run; the rest follow the verdict of those three.
+    hangs_seen = [d for d in deaths if d.get("hang")]
+    if hangs_seen:
+        limit = 2 * int(os.environ.get("VERIF_CASE_TIMEOUT_S", "120" if tier == "thorough" else "45"))
+        confirmed, cleared = 0, 0
+        verified = {}
+        for d in hangs_seen[:3]:
+            idx = d["index"]
+            if idx in verified:
+                continue
+            out = os.path.join(wdir, "rerun_%d.json" % idx)
+            prog = os.path.join(wdir, "rerun_prog_%d" % idx)
+            env = dict(ENV, VERIF_CASE_TIMEOUT_S=str(limit))
+            cmd = [binpath, check, "--tier", tier, "--shard", "0/1", "--only", str(idx), "--out", out, "--progress", prog, "--seed", str(seed)] + extra_args
+            log = open(os.path.join(wdir, "rerun_%d.log" % idx), "ab")
+            try:
+                rc = subprocess.run(cmd, cwd=ROOT, env=env, stdout=log, stderr=log, timeout=limit + 120).returncode
+            except subprocess.TimeoutExpired:
+                rc = 86
+            verified[idx] = rc
+            if rc == 86:
+                confirmed += 1
+            elif rc == 0 and os.path.exists(out):
+                cleared += 1
+                results.setdefault(d["shard"], []).append(out)
+            else:
+                # it died some other way when run alone: keep that observation instead
+                d["hang"] = False
+                d["rc"] = rc
+                confirmed += 1
+        if confirmed == 0:
+            dropped = [d for d in deaths if d.get("hang")]
+            deaths = [d for d in deaths if not d.get("hang")]
+            capped.append("%d case(s) exceeded the per-execution watchdog while all workers were running but finished when re-run "
+                          "alone with twice the limit (%d re-run, indices %s): counted as stalls of the host, not as hangs"
+                          % (len(dropped), cleared, sorted(verified)))
+        else:
+            deaths = [d for d in deaths if not (d.get("hang") and verified.get(d["index"]) == 0)]
     return results, deaths, time.time() - t0, capped
 
 
